@@ -27,10 +27,10 @@ RULE = ("rule sets of 1-25 rules in 1-3 namespaces with global/private flags and
         "Constant conditions are capped at 15%. Dedicated streams aim at the known deviations (constant folding through f64, "
         "`N of` with N = 0, more than 64 variable slots). Non-trivial: condition of >= 5 nodes; distinct by condition text.")
 
+# what Check.explain answers for a failing case; none of these is a known finding any more
 FINGERPRINTS = {
-    2: "C02:of-fast-path:N<=0-always-true",
-    5: "C02:lazy-pattern-search-skipped",
-    7: "C02:lazy-pattern-search-skipped+of-fast-path",
+    5: "C02:regression:lazy-pattern-search-skipped(verdicts-change-when-the-search-is-forced)",
+    8: "C02:verdict-with-forced-pattern-search-differs-from-documented-meaning",
 }
 
 
@@ -64,7 +64,7 @@ def explain_batch(drv, casedir, cases):
 def classify(case):
     code = case.get("explain", 255)
     if code in FINGERPRINTS:
-        return FINGERPRINTS[code]
+        return FINGERPRINTS[code] + ":" + hashlib.sha1(case.get("source", "").encode()).hexdigest()[:10]
     # a disagreement no known deviation reproduces: fingerprint by the condition text
     return "C02:verdict-differs-from-documented-meaning:" + hashlib.sha1(case.get("source", "").encode()).hexdigest()[:10]
 
